@@ -28,12 +28,25 @@ LO, HI = -2.0, 3.0
 
 
 # ----------------------------------------------------------------------------- user callables (top level: picklable)
+_PROBE = {'on': False, 'fp': None, 'draws': False}
+
+
+def rng_fingerprint():
+    st = np.random.get_state()
+    return (hash(random.getstate()), hash(st[1].tobytes()), int(st[2]))
+
+
 class Cost:
     def __init__(self, name, vector=False):
         self.name, self.vector = name, vector
 
     def __call__(self, x):
         v = COSTS[self.name](x)
+        if _PROBE['on']:        # see map_probe
+            if _PROBE['fp'] is None:
+                _PROBE['fp'] = rng_fingerprint()
+            elif _PROBE['fp'] != rng_fingerprint():
+                _PROBE['draws'] = True
         return np.array([v / 2.0, v / 2.0]) if self.vector else v
 
 
@@ -194,6 +207,22 @@ def map_serial(f, *args, **kw):
     return [f(*a) for a in zip(*args)]
 
 
+def map_probe(f, *args, **kw):
+    """serial map that tests the hypothesis "the member solvers draw no random numbers while running": a member's start
+    points are drawn before its first cost evaluation; from then until the work item returns the global generators
+    must not move (Cost.__call__ compares their state at every evaluation, here once more at the end)"""
+    out = []
+    for a in zip(*args):
+        _PROBE.update(on=True, fp=None)
+        try:
+            out.append(f(*a))
+        finally:
+            _PROBE['on'] = False
+        if _PROBE['fp'] is not None and _PROBE['fp'] != rng_fingerprint():
+            _PROBE['draws'] = True
+    return out
+
+
 def map_reversed(f, *args, **kw):
     items = list(zip(*args))
     out = [None] * len(items)
@@ -233,7 +262,7 @@ def map_processes(f, *args, **kw):
     return [dill.loads(r) for r in _POOL[0].map(_dill_call, payloads)]
 
 
-MAPS = {'serial': map_serial, 'reversed': map_reversed, 'shuffled': map_shuffled, 'threads': map_threads,
+MAPS = {'probe': map_probe, 'serial': map_serial, 'reversed': map_reversed, 'shuffled': map_shuffled, 'threads': map_threads,
         'processes': map_processes}
 QUICK_MAPS = ['serial', 'reversed', 'shuffled', 'threads']
 
@@ -432,8 +461,15 @@ def check_ens(spec, maps, res, extra=None):
     def go(mode, m):
         r = safe(run_ens, spec, mode, m)
         return r[0] if isinstance(r, list) else r
-    ref = go('solve', 'builtin')
     tag = '%s/%s:%d' % (spec['ens'], spec['nested'], spec['seed'])
+    _PROBE['draws'] = False
+    go('solve', 'probe')
+    ref = go('solve', 'builtin')
+    if _PROBE['draws']:         # outside the hypothesis of the ensemble clauses: nothing is demanded
+        res.case('ens:solve:builtin:' + tag, nontrivial=False)
+        if extra is not None:
+            extra['outside_hypothesis'] = extra.get('outside_hypothesis', 0) + 1
+        return
     res.case('ens:solve:builtin:' + tag, nontrivial=ref[0] != 'EXC')
     if ref[0] == 'EXC' and extra is not None:
         extra.setdefault('aborted', []).append(str(ref))
@@ -468,6 +504,7 @@ def work_ens(spec):
     check_ens(spec, QUICK_MAPS, res, extra)
     out = res.part()
     out['aborted'] = extra.get('aborted', [])
+    out['outside_hypothesis'] = extra.get('outside_hypothesis', 0)
     return out
 
 
@@ -499,6 +536,9 @@ def run(tier='quick', seed=0):
         res.merge(part)
         for a in part.get('aborted', []):
             res.extra.setdefault('aborted', []).append(str(a)[:160])
+        if part.get('outside_hypothesis'):
+            res.extra['ensemble_scenarios_skipped_members_draw_random_numbers'] = \
+                res.extra.get('ensemble_scenarios_skipped_members_draw_random_numbers', 0) + part['outside_hypothesis']
     if not quick:
         # process-based maps cannot be nested inside the (daemonic) pmap workers: run them here
         import multiprocessing as mp
@@ -528,7 +568,9 @@ def replay(inp):
     try:
         if inp['kind'] == 'de2map':
             return safe(run_de2, inp, 'builtin') == safe(run_de2, inp, inp['map'])
-        return safe(run_ens, inp, 'solve', 'builtin') == safe(run_ens, inp, inp['mode'], inp['map'])
+        _PROBE['draws'] = False
+        safe(run_ens, inp, 'solve', 'probe')
+        return _PROBE['draws'] or safe(run_ens, inp, 'solve', 'builtin') == safe(run_ens, inp, inp['mode'], inp['map'])
     finally:
         if _POOL[0] is not None:
             _POOL[0].close()
